@@ -10,7 +10,7 @@
    existing connection and gives [EGone] / [ERtspPlay] of an RTSP session their connection-level
    meaning.  Every step is a sequence of GroupAdmission steps.
 
-   [f32] = false: the tree before the repair (a further ANNOUNCE / DESCRIBE overwrites the field);
+   [fsh] = false: the tree before the repair (a further ANNOUNCE / DESCRIBE overwrites the field);
    true: a connection that already carries a publish or play session answers a further ANNOUNCE /
    DESCRIBE with an error, i.e. the connection ends and its session is reported as departed.
    No proofs in this file. *)
@@ -79,7 +79,7 @@ Definition arrival_id (e : event) : option N :=
 Definition result_acc (r : result) : bool := match r with RAcc => true | _ => false end.
 Definition result_bad (r : result) : bool := match r with RBad | RPanic => true | _ => false end.
 
-Definition cstep (f32 : bool) (fx : fixes) (cf : config) (cs : cstate) (ce : cevent) : cstate * result * list notif :=
+Definition cstep (fsh : bool) (fx : fixes) (cf : config) (cs : cstate) (ce : cevent) : cstate * result * list notif :=
   let st := cs_base cs in
   let conns := cs_conns cs in
   match ce with
@@ -133,7 +133,7 @@ Definition cstep (f32 : bool) (fx : fixes) (cf : config) (cs : cstate) (ce : cev
       | None => (cs, RBad, [])
       | Some k =>
         if negb (cn_open k) || conn_closed st k then (cs, RBad, [])
-        else if f32 && (is_some (cn_pub k) || is_some (cn_sub k)) then
+        else if fsh && (is_some (cn_pub k) || is_some (cn_sub k)) then
           (* repaired: an error; the connection ends and its session departs *)
           let '(st1, ns) := close_conn fx cf st k in
           (mk_cstate st1 (set_conn c (mk_conn (cn_members k ++ [n]) (cn_pub k) (cn_sub k) false) conns), RRef, ns)
@@ -154,7 +154,7 @@ Definition cstep (f32 : bool) (fx : fixes) (cf : config) (cs : cstate) (ce : cev
       | None => (cs, RBad, [])
       | Some k =>
         if negb (cn_open k) || conn_closed st k then (cs, RBad, [])
-        else if f32 && (is_some (cn_pub k) || is_some (cn_sub k)) then
+        else if fsh && (is_some (cn_pub k) || is_some (cn_sub k)) then
           let '(st1, ns) := close_conn fx cf st k in
           (mk_cstate st1 (set_conn c (mk_conn (cn_members k ++ [n]) (cn_pub k) (cn_sub k) false) conns), RRef, ns)
         else
@@ -169,11 +169,11 @@ Definition cstep (f32 : bool) (fx : fixes) (cf : config) (cs : cstate) (ce : cev
       end
   end.
 
-Fixpoint crun (f32 : bool) (fx : fixes) (cf : config) (cs : cstate) (h : list cevent) : cstate * list notif :=
+Fixpoint crun (fsh : bool) (fx : fixes) (cf : config) (cs : cstate) (h : list cevent) : cstate * list notif :=
   match h with
   | [] => (cs, [])
   | e :: t =>
-    let '(cs1, _, ns) := cstep f32 fx cf cs e in
-    let '(cs2, ns2) := crun f32 fx cf cs1 t in
+    let '(cs1, _, ns) := cstep fsh fx cf cs e in
+    let '(cs2, ns2) := crun fsh fx cf cs1 t in
     (cs2, ns ++ ns2)
   end.
